@@ -638,6 +638,8 @@ def worker(acc, shard, nshards, tier, seed):
             core.crumb({'api': name, 'values': vals, 'containers': kinds})
             run_call(acc, E, name, eng, fn, vals, kinds, base_cache[key])
             acc.case('pair-' + kindname, nontrivial=any(x not in ('list', 'array') for x in kinds))
+            if not acc.samples:
+                acc.sample({'api': name, 'values': vals, 'containers': kinds})
     # engine independence of the canonical results for the pair routines that exist in both engines
     if shard == 0:
         both = [('dtw.distance', 'dtw.distance_fast'), ('dtw.lb_keogh', 'dtw.lb_keogh(use_c)'), ('ed.distance', 'ed.distance_fast'), ('dtw.warping_paths', 'dtw.warping_paths_fast'),
